@@ -26,6 +26,11 @@ type Loc struct {
 }
 
 func (env *Env) evalLoc(e *E) Loc {
+	if !env.locMode {
+		sub := *env
+		sub.locMode = true
+		return sub.evalLoc(e)
+	}
 	switch e.Op {
 	case "id":
 		// a captured variable of a closure: its cell
@@ -479,6 +484,10 @@ func (ex *Exec) ghostSitesBound() []string {
 	for _, g := range ex.con.Ghost {
 		if !sites[g.Site] {
 			missing = append(missing, g.Site)
+		}
+		// ghost code at the return site runs once, after the return value is known
+		if g.Site == "entry" || (g.Site == "return" && g.When != "after") {
+			missing = append(missing, g.Site+" "+g.When+" (only `at return after` exists)")
 		}
 	}
 	return missing
